@@ -263,6 +263,34 @@ def run(ctx):
                "TextEdit range comes from %s" % "; ".join(describe_origin(f, o) for f, o in roots) + (" — the diagnostic (match) range, not the fixer's replaced range" if from_diag else ""),
                where=c.fn.loc(c.line))
     ctx.floor("R5", "TextEdit sites", len(sites), 2)
+    # positive side: the functions that build TextEdits read RewriteData.range, and RewriteData.range is computed from make_edit
+    for top in sorted({c.fn.root or c.fn.id for c in sites}):
+        fam = prog.family(prog.fns[top]) if top in prog.fns else []
+        reads = any(".range|ast_grep_lsp::utils::RewriteData" in repr(b["s"]) + repr(b["t"]) for g in fam for b in g.blocks)
+        ctx.ob("R5", "%s reads RewriteData.range" % top, reads, "the code action takes its range from the rewrite data carried by the diagnostic" if reads else "RewriteData.range is never read here: the edit range cannot be the fixer's", where=prog.fns[top].loc() if top in prog.fns else None)
+    rd = prog.aggregates_of(r"^ast_grep_lsp::utils::RewriteData$")
+    rd = [(f, s_) for f, bi, si, s_ in rd if f.impl_trait is None or "Deserialize" not in (f.impl_trait or "")]
+    n_rd = 0
+    for f, s_ in rd:
+        if f.impl_trait:
+            continue
+        n_rd += 1
+        ops = dict(zip(s_[2][1]["fields"], s_[2][2]))
+        me = [c for c in f.calls if c.name == "make_edit"]
+        roots = []
+        def collect(op, depth=0):
+            for o in f.trace_operand(op):
+                if o.kind == "agg" and depth < 4:
+                    for sub in o.ref[2][2]:
+                        collect(sub, depth + 1)
+                elif o.kind == "call" and depth < 6:
+                    roots.append(o.ref)
+                    for a in o.ref.args:
+                        collect(a, depth + 1)
+        collect(ops.get("range", ["k", {}]))
+        ok = bool(me) and any(r is me[0] for r in roots)
+        ctx.ob("R5", "RewriteData.range computed from make_edit in %s" % f.id, ok, "range = positions of the Edit returned by make_edit(rule.matcher, fixer)" if ok else "RewriteData.range is not derived from the Edit of make_edit", where=f.loc(s_[3]))
+    ctx.floor("R5", "RewriteData constructors", n_rd, 1)
 
 
 def diag_typed(f, o):
